@@ -61,7 +61,19 @@ def gen_mixed(rng, depth=1):
             c = {"c": k, "args": args}
             if k == "AtMost": c["v"] = rng.randint(0, 2)
             comps.append(c)
-    node = {"c": "AtLeast", "v": rng.randint(-1, 4), "args": comps + atoms}
+    if rng.random() < 0.35:
+        # conjunction-shaped: value = number of children, boolean atoms (also as All(...))
+        atoms = [{"c": "var", "id": a["id"], "lo": 0, "hi": 1} if rng.random() < 0.8 else a for a in atoms]
+        if rng.random() < 0.5:
+            node = {"c": "All", "args": comps + atoms}
+            if rng.random() < 0.5: node["id"] = f"M{rng.randint(1, 999)}"
+            r = rng.random()
+            if depth > 0 and r < 0.2: return {"c": "Any", "args": [node, {"c": "str", "id": "z"}]}
+            if depth > 0 and r < 0.4: return {"c": "Imply", "cond": node, "cons": {"c": "str", "id": "z"}}
+            return node
+        node = {"c": "AtLeast", "v": len(comps) + len(atoms) - rng.choice([0, 0, 0, 1]), "args": comps + atoms}
+    else:
+        node = {"c": "AtLeast", "v": rng.randint(-1, 4), "args": comps + atoms}
     if rng.random() < 0.6: node["sign"] = 1
     if rng.random() < 0.5: node["id"] = f"M{rng.randint(1, 999)}"
     r = rng.random()
